@@ -58,6 +58,9 @@ GRAMMARS = [
     ('start: KW NAME\nKW: "do"\nNAME: /[x-z]/\n%ignore " "', 'dDoO x', ' ', re.I, None),    # a start terminal that matches only through g_regex_flags
     ('start: A B+\nA: "a"\nB: "b"\n%ignore /[ \\n]+/', 'ab \n', ' \n', 0, None),
     ('start: NUM ("+" NUM)*\nNUM: /[0-9]/', '1+x', '', 0, None),
+    # a first token of several characters: after a failed attempt the next start is tried at the very next offset, also inside that token
+    ('start: NUM UNIT\nNUM: /[0-9](\\.[0-9])?/\nUNIT: "p"', '1.p', '', 0, 6),
+    ('start: STR ":" STR\nSTR: /"[^"]*"/\n%ignore " "', '"a: ', ' ', 0, 6),
 ]
 L = 5 if tier == 'quick' else 7
 for g, alpha, ign, gflags, ownL in GRAMMARS:
